@@ -1650,3 +1650,160 @@ func ruleReaderBufferMinimum(r *Report) {
 		r.Bad(rule, key, fn.Pos(), "the reader uses whatever buffer it is given: with ReadBufferSizeBytes(0) (or an index loader left at its zero value) the first ReadByte panics with \"bufio: tried to fill full buffer\" — in the flusher goroutine at the first flush, or inside Open when tables exist — and the process terminates")
 	}
 }
+
+// R-compaction-needs-input: a compaction cycle that selected no table must do nothing. The only guard is the comparison
+// with the configured threshold, which is an ordinary option: with a negative threshold an empty selection passes it, the
+// cycle merges nothing and then indexes the first path of an empty list — an index-out-of-range panic in the
+// compaction goroutine, which terminates the process.
+func ruleCompactionNeedsInput(r *Report) {
+	const rule = "compaction-needs-input"
+	r.Rule(rule, 1, "in executeCompaction every indexing of the selected path list with a constant is reachable only when the list was tested to be non-empty (len(paths) compared with zero), whatever the threshold option is")
+	fn := r.NeedFunc(rule, "simpledb.executeCompaction")
+	if fn == nil {
+		return
+	}
+	key := rule + "/simpledb.executeCompaction"
+	var idxSites []Site
+	eachInstr(fn, func(s Site) {
+		if ia, ok := s.Instr.(*ssa.IndexAddr); ok {
+			if _, isC := constInt(ia.Index); isC {
+				if _, isSl := ia.X.Type().Underlying().(*types.Slice); isSl && strings.Contains(ia.X.Type().String(), "string") {
+					idxSites = append(idxSites, s)
+				}
+			}
+		}
+	})
+	if len(idxSites) == 0 {
+		r.OK(rule, key, fn.Pos(), "no constant index into the path list")
+		return
+	}
+	// edges on which len(x) == 0 is excluded
+	removed := map[Edge]bool{}
+	found := false
+	for _, b := range liveBlocks(fn) {
+		cnd, tS, fS, tE, fE, ok := effCond(b)
+		if !ok {
+			continue
+		}
+		bo, isB := cnd.(*ssa.BinOp)
+		if !isB {
+			continue
+		}
+		isLen := func(v ssa.Value) bool {
+			c, isC := v.(*ssa.Call)
+			if !isC {
+				return false
+			}
+			bi, isBi := c.Call.Value.(*ssa.Builtin)
+			return isBi && bi.Name() == "len"
+		}
+		zero := func(v ssa.Value) bool { c, isC := constInt(v); return isC && c == 0 }
+		// the side on which the list is known to be EMPTY is kept, everything else removed: indexing must then be unreachable
+		switch {
+		case isLen(bo.X) && zero(bo.Y) && bo.Op == token.EQL && tE:
+			removed[Edge{b, fS}] = true
+			found = true
+		case isLen(bo.X) && zero(bo.Y) && (bo.Op == token.NEQ || bo.Op == token.GTR) && fE:
+			removed[Edge{b, tS}] = true
+			found = true
+		case isLen(bo.X) && zero(bo.Y) && bo.Op == token.LEQ && tE:
+			removed[Edge{b, fS}] = true
+			found = true
+		}
+	}
+	bad := !found
+	for _, s := range idxSites {
+		if found && siteReachable(s, removed) {
+			bad = true
+		}
+	}
+	if bad {
+		r.Bad(rule, key, idxSites[0].Pos(), "the first selected path is indexed although nothing guarantees that a table was selected: with CompactionFileThreshold(-1) an empty selection passes the threshold test and the compaction goroutine dies with index out of range [0] at the first tick, even on an empty database")
+	} else {
+		r.OK(rule, key, idxSites[0].Pos(), "an empty selection returns before anything is indexed")
+	}
+}
+
+// R-sync-failure-rolls-back: WriteSync buffers the record, flushes it into the file and then syncs. When the sync fails
+// the caller is told that the record was not written — but it sits in the file, complete and readable: a WAL replay
+// after a crash (or after a clean restart that had nothing to flush) applies a Put/Delete that was rejected. The failed
+// record has to be taken back (truncate to the offset before it), or the writer must refuse everything after it.
+func ruleSyncFailureRollsBack(r *Report) {
+	const rule = "sync-failure-rolls-back"
+	r.Rule(rule, 1, "in FileWriter.WriteSync every error return reachable from the failure edge of file.Sync passes a Truncate of the file, directly or in a helper (the record is taken back), so that a record whose write was reported as failed cannot be read later")
+	p := r.P
+	fn := r.NeedFunc(rule, "recordio.FileWriter.WriteSync")
+	if fn == nil {
+		return
+	}
+	key := rule + "/recordio.FileWriter.WriteSync"
+	syncs := CallsIn(fn, Keys("os.File.Sync"))
+	if len(syncs) == 0 {
+		r.Missing(rule, key, "WriteSync does not sync")
+		return
+	}
+	trunc := CallsIn(fn, Keys("os.File.Truncate"))
+	// … or a module helper that truncates
+	eachInstr(fn, func(s Site) {
+		c, ok := s.Instr.(*ssa.Call)
+		if !ok {
+			return
+		}
+		sc := c.Call.StaticCallee()
+		if sc == nil || !inModule(sc) || sc == fn {
+			return
+		}
+		for _, g := range moduleReach(p, []*ssa.Function{sc}) {
+			if len(CallsIn(g, Keys("os.File.Truncate"))) > 0 {
+				trunc = append(trunc, s)
+				return
+			}
+		}
+	})
+	// (marking the writer unusable alone does not count: the record would still be replayed)
+	removed := map[Edge]bool{}
+	for _, t := range trunc {
+		for _, su := range t.Block.Succs {
+			removed[Edge{t.Block, su}] = true
+		}
+	}
+	// an undo step that fails before the Truncate (the Seek of the buffered writer) may skip it: only the success edges
+	// of the other calls are followed
+	isSync := map[ssa.Instruction]bool{}
+	for _, s := range syncs {
+		isSync[s.Instr] = true
+	}
+	eachInstr(fn, func(s Site) {
+		if _, ok := s.Instr.(*ssa.Call); !ok || isSync[s.Instr] {
+			return
+		}
+		_, fail := errorEdges(s)
+		for _, e := range fail {
+			removed[e] = true
+		}
+	})
+	bad := false
+	for _, s := range syncs {
+		_, fail := errorEdges(s)
+		for _, e := range fail {
+			reach := reachFrom(e.To, removed)
+			for _, rs := range returnsOf(fn) {
+				inTrunc := false
+				for _, t := range trunc {
+					if t.Block == rs.Block {
+						inTrunc = true
+					}
+				}
+				if reach[rs.Block] && !inTrunc {
+					bad = true
+				}
+			}
+		}
+	}
+	if bad {
+		r.Bad(rule, key, syncs[0].Pos(), "when fsync fails the error is returned but the record stays in the file, complete: Put(k,v1) ok, Put(k,v2) fails with EIO at fsync, Get(k) = v1 — after a crash and Open Get(k) = v2; a rejected Delete deletes the key after recovery; and since an empty memstore is not flushed at Close, the same happens after a clean restart")
+	} else {
+		r.OK(rule, key, syncs[0].Pos(), "a record whose sync failed is truncated away before the error is returned")
+	}
+	_ = p
+}
